@@ -102,7 +102,26 @@ func dumpStmt(s *influxql.SelectStatement) J {
 	if s.Location != nil {
 		loc = s.Location.String()
 	}
-	return J{"fields": dumpFields(s.Fields), "dims": dims, "sources": srcs, "cond": dump(s.Condition), "sort": sf,
+	fillname, fillnum := "other", any(nil)
+	switch s.Fill {
+	case influxql.NullFill:
+		fillname = "null"
+	case influxql.NoFill:
+		fillname = "none"
+	case influxql.PreviousFill:
+		fillname = "previous"
+	case influxql.LinearFill:
+		fillname = "linear"
+	case influxql.NumberFill:
+		fillname = "number"
+		switch v := s.FillValue.(type) {
+		case int64:
+			fillnum = dump(&influxql.IntegerLiteral{Val: v})
+		case float64:
+			fillnum = dump(&influxql.NumberLiteral{Val: v})
+		}
+	}
+	return J{"fillname": fillname, "fillnum": fillnum, "fields": dumpFields(s.Fields), "dims": dims, "sources": srcs, "cond": dump(s.Condition), "sort": sf,
 		"limit": s.Limit, "offset": s.Offset, "slimit": s.SLimit, "soffset": s.SOffset, "fill": int(s.Fill),
 		"fillvalue": fmt.Sprintf("%T:%v", s.FillValue, s.FillValue), "loc": loc, "hints": hints}
 }
@@ -376,7 +395,9 @@ func yyStmt(q string) (s *influxql.SelectStatement, err error) {
 }
 
 type piece struct {
-	What    string `json:"what"`    // fields | source | subquery | sortfields | statement
+	RA      any    `json:"ra,omitempty"` // exact structures (ParenExpr nodes kept) for the Coq model of printer and parser
+	RB      any    `json:"rb,omitempty"`
+	What    string `json:"what"` // fields | source | subquery | sortfields | statement
 	Printed string `json:"printed"` // the text that is shipped
 	Err     string `json:"err,omitempty"`
 	A       any    `json:"a"` // structure before
@@ -396,6 +417,9 @@ func protect(p *piece, f func()) {
 func stmtPieces(st *influxql.SelectStatement) []piece {
 	out := []piece{}
 	add := func(p piece) {
+		if !strings.HasSuffix(p.What, "@fresh") {
+			p.RA, p.RB = p.A, p.B
+		}
 		p.A, p.B = stripParens(p.A), stripParens(p.B) // compare operators and grouping (see stripParens)
 		p.OK = p.Err == "" && canonJSON(p.A) == canonJSON(p.B)
 		if p.OK {
